@@ -278,47 +278,53 @@ def _workflow_case(case: dict) -> dict:
         d = _diff(want_stages[s0.id], _stage_view(one), "retrieve_stage.")
         if d:
             failures.append(("C19/retrieve-stage-differs:" + d[0].split(":")[0].split(".")[-1].split("[")[0], d[:3]))
-        before = _stage_view(one)
-        changed = {}
-        for f in ("status", "context", "outputs", "start_time", "end_time"):
-            if rnd.random() < 0.5:
-                if f == "status":
-                    one.status = rnd.choice(list(WorkflowStatus))
-                    changed[f] = one.status.name
-                elif f in ("context", "outputs"):
-                    newv = {"changed": [rnd.random(), {"k": None}], **({} if rnd.random() < 0.5 else getattr(one, f))}
-                    if f == "context" and "_output_reducers" in one.context:
-                        newv["_output_reducers"] = one.context["_output_reducers"]  # reducers persist through the context
-                    setattr(one, f, newv)
-                    changed[f] = _jr(newv)
-                else:
-                    setattr(one, f, rnd.randrange(10**12))
-                    changed[f] = getattr(one, f)
-        if one.tasks and rnd.random() < 0.5:
-            t = rnd.choice(one.tasks)
-            t.status = rnd.choice(list(WorkflowStatus))
-            t.end_time = rnd.randrange(10**12)
-            changed["task"] = t.id
-        path = rnd.choice(["plain", "plain_phase", "txn", "txn_phase"])
-        phase = before["status"] if path.endswith("phase") else None
-        if path.startswith("plain"):
-            store.store_stage(one, expected_phase=phase) if phase else store.store_stage(one)
-        else:
-            with store.transaction(w.queue) as txn:
-                txn.store_stage(one, expected_phase=phase) if phase else txn.store_stage(one)
-        obs[f"save_path_{path}"] += 1
-        after = _stage_view(store.retrieve_stage(s0.id))
-        obs["partial_updates_checked"] += 1
-        expect = dict(before)
-        for f, v in changed.items():
-            if f != "task":
-                expect[f] = v
-        expect["tasks"] = [_task_view(t) for t in one.tasks]
-        d = _diff(expect, after, "after-store_stage.")
-        if d:
-            fld = d[0].split(":")[0].split(".")[-1].split("[")[0]
-            kind = "changed-field-not-saved" if fld in changed or (fld in TASK_FIELDS and "task" in changed) else "store-stage-altered-other-field"
-            failures.append((f"C19/{kind}:{fld}", [f"save path {path}; changed {sorted(changed)}"] + d[:3]))
+        for _round in range(2):
+            # two successive partial updates of the same stage: the second may change or CLEAR (None) what the first set
+            before = _stage_view(one)
+            changed = {}
+            for f in ("status", "context", "outputs", "start_time", "end_time"):
+                if rnd.random() < 0.5:
+                    if f == "status":
+                        one.status = rnd.choice(list(WorkflowStatus))
+                        changed[f] = one.status.name
+                    elif f in ("context", "outputs"):
+                        newv = {"changed": [rnd.random(), {"k": None}], **({} if rnd.random() < 0.5 else getattr(one, f))}
+                        if f == "context" and "_output_reducers" in one.context:
+                            newv["_output_reducers"] = one.context["_output_reducers"]  # reducers persist through the context
+                        setattr(one, f, newv)
+                        changed[f] = _jr(newv)
+                    else:
+                        setattr(one, f, rnd.choice([None, rnd.randrange(10**12)]))
+                        changed[f] = getattr(one, f)
+            if one.tasks and rnd.random() < 0.5:
+                t = rnd.choice(one.tasks)
+                t.status = rnd.choice(list(WorkflowStatus))
+                t.end_time = rnd.choice([None, rnd.randrange(10**12)])
+                t.start_time = rnd.choice([None, rnd.randrange(10**12)])
+                t.task_exception_details = rnd.choice([{}, {"exception": "x", "n": [1, None]}])
+                changed["task"] = t.id
+            path = rnd.choice(["plain", "plain_phase", "txn", "txn_phase"])
+            phase = before["status"] if path.endswith("phase") else None
+            if path.startswith("plain"):
+                store.store_stage(one, expected_phase=phase) if phase else store.store_stage(one)
+            else:
+                with store.transaction(w.queue) as txn:
+                    txn.store_stage(one, expected_phase=phase) if phase else txn.store_stage(one)
+            obs[f"save_path_{path}"] += 1
+            saved_tasks = [_task_view(t) for t in one.tasks]  # what was handed to the store
+            one = store.retrieve_stage(s0.id)
+            after = _stage_view(one)
+            obs["partial_updates_checked"] += 1
+            expect = dict(before)
+            for f, v in changed.items():
+                if f != "task":
+                    expect[f] = v
+            expect["tasks"] = saved_tasks
+            d = _diff(expect, after, "after-store_stage.")
+            if d:
+                fld = d[0].split(":")[0].split(".")[-1].split("[")[0]
+                kind = "changed-field-not-saved" if fld in changed or (fld in TASK_FIELDS and "task" in changed) else "store-stage-altered-other-field"
+                failures.append((f"C19/{kind}:{fld}", [f"save path {path}; changed {sorted(changed)}"] + d[:3]))
 
     try:
         prop()
